@@ -21,6 +21,7 @@ func c08Gen(seed uint64, run int, tier string) *Case {
 	}
 	maxData := effMsize(c) - IOHDRSZ
 	nconn := int(c.Cfg["nconn"])
+	c.Cfg["tagxor"] = int64(r.Pick(0, 0, 0, 0, 0x8000, 0xFFFF, 0xFFFF^100, 0xFFFF^101, 0xFFFF^(100+r.Intn(6)))) // tag values from the far end too: slot 0, or one of the first shared-tag groups, is tag 0xFFFF
 	if run%10 == 9 {
 		// a read or write on an authentication fid parked inside AuthRead / AuthWrite
 		c.Stratum = "auth-fid-blocked"
